@@ -62,42 +62,21 @@ Theorem C14_layer_covers_content : forall b W H m px py,
 Proof. exact layer_covers_content_canvas. Qed.
 Print Assumptions C14_layer_covers_content.
 
-(* nested layers.  A group inside enclosing layers is laid out in their frame (accumulated origin ox,oy)
-   but clamped against the untranslated max_bbox.  Guarded form: the frame keeps the canvas inside max_bbox. *)
-Theorem C14_nested_layer_covers_content : forall b m W H ox oy px py,
-  small_bbox b -> valid_irect m -> frame_ok W H ox oy m ->
+(* nested layers, any depth.  `frame m0 ox oy m`: a coordinate frame (accumulated layer origin ox,oy; clamp box m)
+   reached from the root through any number of nested layers, each handing `layer_child_max` (source-derived:
+   the clamp box translated into the layer's frame, ffdf909) to its children. *)
+Theorem C14_nested_frame_invariant : forall m0 ox oy m, valid_irect m0 -> frame m0 ox oy m ->
+  m = ishift (- ox) (- oy) m0 /\ valid_irect m.
+Proof. exact frame_inv. Qed.
+Print Assumptions C14_nested_frame_invariant.
+
+(* full strength: whatever the nesting, every canvas pixel the content (+ 1 px fringe) touches is in the layer *)
+Theorem C14_nested_layer_covers_content : forall b m0 W H ox oy m px py,
+  small_bbox b -> 1 <= W <= CANVAS_MAX -> 1 <= H <= CANVAS_MAX -> max_bbox W H = Some m0 -> frame m0 ox oy m ->
   in_irect (canvas_rect W H) px py -> touches b 1%Q (px - ox) (py - oy) ->
   in_lres (layer_box b true m) (px - ox) (py - oy).
-Proof. exact layer_covers_content_frame. Qed.
+Proof. exact nested_layer_covers_content. Qed.
 Print Assumptions C14_nested_layer_covers_content.
-
-(* one level of nesting always satisfies the guard *)
-Theorem C14_nested_once_ok : forall W H m P px py,
-  1 <= W <= CANVAS_MAX -> 1 <= H <= CANVAS_MAX -> max_bbox W H = Some m ->
-  valid_irect P -> inside P m -> in_irect P px py -> in_irect (canvas_rect W H) px py ->
-  frame_ok W H (ix P) (iy P) m.
-Proof. exact frame_ok_depth1. Qed.
-Print Assumptions C14_nested_once_ok.
-
-(* two levels do not: the faithful model loses visible content (known class nested-layer-clamp) *)
-Theorem C14_nested_layer_covers_content_refuted :
-  exists W H m b1 P1 b2 P2 b3 px py,
-    max_bbox W H = Some m /\ layer_box b1 true m = LBox P1 /\ layer_box b2 true m = LBox P2 /\
-    small_bboxb b3 = true /\
-    in_irect (canvas_rect W H) px py /\ in_irect P1 px py /\ in_irect P2 (px - ix P1) (py - iy P1) /\
-    frame_okb W H (ix P1 + ix P2) (iy P1 + iy P2) m = false /\
-    touches b3 0%Q (px - ix P1 - ix P2) (py - iy P1 - iy P2) /\
-    ~ in_lres (layer_box b3 true m) (px - ix P1 - ix P2) (py - iy P1 - iy P2).
-Proof. exact nested_clamp_refuted. Qed.
-Print Assumptions C14_nested_layer_covers_content_refuted.
-
-(* outside the guard the clause fails in the faithful model: a 2^31-wide group is dropped *)
-Theorem C14_layer_covers_content_refuted :
-  exists b W H px py, small_bboxb b = false /\ max_bbox W H <> None /\
-    in_irect (canvas_rect W H) px py /\ touches b 0%Q px py /\
-    forall m, max_bbox W H = Some m -> layer_box b true m = LSkip.
-Proof. exact huge_group_skipped. Qed.
-Print Assumptions C14_layer_covers_content_refuted.
 
 (* clamping to max_bbox never clips anything that is on the canvas *)
 Theorem C14_clamp_keeps_canvas : forall r m W H px py,
@@ -132,6 +111,21 @@ Example C14_nv_clamped :
   exists m, max_bbox 100 100 = Some m /\
   layer_box (mk_qrect (-(450 # 1)) (-(450 # 1)) (1000 # 1) (1000 # 1)) true m = LBox (mk_irect (-200) (-200) 500 500).
 Proof. eexists. split; [vm_compute; reflexivity|]. vm_compute. reflexivity. Qed.
+(* three nested layers around a box from -300 to 500 on a 100x100 canvas (the witness of the former defect
+   nested-layer-clamp; the numbers are the recorded trace of the real renderer after ffdf909): the second and third
+   frame have origin (-200, 8) and clamp box [0,500) x [-208,292) - the canvas, at local x 200..300, is inside *)
+Example C14_nv_three_nested :
+  let m0 := mk_irect (-200) (-200) 500 500 in
+  let P1 := mk_irect (-200) 8 500 84 in
+  let m1 := layer_child_max m0 P1 in
+  let P2 := mk_irect 0 0 500 84 in
+  let m2 := layer_child_max m1 P2 in
+  layer_box (mk_qrect (-(300 # 1)) (10 # 1) (800 # 1) (80 # 1)) true m0 = LBox P1 /\
+  m1 = mk_irect 0 (-208) 500 500 /\
+  layer_box (mk_qrect (-(100 # 1)) (2 # 1) (800 # 1) (80 # 1)) true m1 = LBox P2 /\
+  m2 = m1 /\
+  layer_box (mk_qrect (-(100 # 1)) (2 # 1) (800 # 1) (80 # 1)) true m2 = LBox P2.
+Proof. cbv zeta. repeat split; vm_compute; reflexivity. Qed.
 Example C14_nv_half_alpha :
   peq (render (Grp true (1 # 2) [Draw {| pr := 1; pg := 0; pb := 0; pa := 1 |}]) clear)
       {| pr := 1 # 2; pg := 0; pb := 0; pa := 1 # 2 |}.
